@@ -341,7 +341,7 @@ def record(objs, codec, encoding, dump_how, load_how, plan_fn, tagged, tmpdir):
     data, dumped = dump_real(objs, codec, encoding, dump_how, tmpdir)
     lines = dump_lines(objs)
     enc_nobom = {'utf-16': 'utf-16-le', 'utf-32': 'utf-32-le'}.get(encoding, encoding)
-    lines_b = [s.encode(enc_nobom) for s in lines]
+    lines_b = [s.encode(enc_nobom, 'replace') for s in lines]     # (layout only; what a mutated dump() wrote may not be encodable)
     rawnl = any('\n' in s[:-1] for s in lines)
     n = len(objs)
     plan = plan_fn(data, lines_b) if (plan_fn and load_how != 'path') else None
